@@ -118,13 +118,14 @@ class Angle(Reparameterisation):
 
     def _inverse_rescale_angle(self, x, x_prime, log_j):
         # Map the recovered angle onto the branch that contains the prior
-        # bounds; angles that are already within the bounds are unchanged
-        lower = self.prior_bounds[self.angle][0]
+        # bounds (the one closest to their centre); angles that are already
+        # on that branch are unchanged
+        lower, upper = self.prior_bounds[self.angle]
         period = 2.0 * np.pi / self.scale
         angle = x[self.angle]
-        outside = (angle < lower) | (angle >= lower + period)
-        if np.any(outside):
-            angle[outside] = np.mod(angle[outside] - lower, period) + lower
+        shift = np.round((0.5 * (lower + upper) - angle) / period)
+        if np.any(shift != 0):
+            angle += shift * period
         return x, x_prime, log_j
 
     def reparameterise(self, x, x_prime, log_j, **kwargs):
